@@ -5,9 +5,12 @@
    of snips); proofs: Proofs/SpaceProofs.v.
 
    Listed findings and where they appear here:
-     C16-1/3    (a definition inserted under a type name that is already
-                 registered by an earlier call / by a titled sub-schema of the
-                 same call)  = the histories excluded by `fresh_history`;
+     C16-1      (a definition inserted under a type name that an EARLIER call
+                 registered)  = the histories excluded by `fresh_history`;
+     C16-3      (a titled / derived inline type of the SAME call has the
+                 definition's name) FIXED by 40183ea, mirrored in Space.v
+                 (`created_dup`): C16_names_unique_within_call,
+                 C16_names_unique_inner_title_rejected;
      C16-2      (two definitions of ONE call with one type name) FIXED by
                  c22ef06 and mirrored in Space.v (`batch_dup`):
                  C16_names_unique_same_batch;
@@ -106,28 +109,37 @@ Theorem C16_names_unique_readd_refuted :
   exists c, ~ NoDup (def_names (run_history empty [c; c])).
 Proof. exact names_unique_readd_refuted. Qed.
 
-(* since fix c22ef06: a batch with two definitions inserted under one type name
-   (foo / Foo, a titled root and a definition) returns Err, whatever else it
-   contains; an accepted batch has pairwise distinct definition names *)
+(* since fixes c22ef06 + 40183ea: ONE DEFINITION PER NAME WITHIN ONE CALL.
+   (i) a batch with two definitions inserted under one type name (foo / Foo, a
+   titled root and a definition) returns Err, whatever else it contains and in
+   whatever state it is issued; *)
 Theorem C16_names_unique_same_batch : forall pre d1 mid d2 post n b1 b2 boxes ret,
   d_ins d1 = InsNamed n b1 -> d_ins d2 = InsNamed n b2 ->
-  call_err (AddRefs (pre ++ d1 :: mid ++ d2 :: post) boxes ret) = true.
+  forall s, call_err s (AddRefs (pre ++ d1 :: mid ++ d2 :: post) boxes ret) = true.
 Proof. exact same_batch_rejected. Qed.
 
-Theorem C16_accepted_batch_names_distinct : forall defs, batch_dup defs = None ->
-  NoDup (flat_map (fun d => ins_names' (d_ins d)) defs).
-Proof. exact accepted_batch_names_distinct. Qed.
+(* (ii) in an ACCEPTED batch the definitions' names are pairwise distinct AND every
+   named entry the call created -- the definitions and the inline / titled types
+   their conversions assigned (derived names) -- has its own name *)
+Theorem C16_names_unique_within_call : forall s defs boxes ret,
+  call_err s (AddRefs defs boxes ret) = false ->
+  NoDup (flat_map (fun d => ins_names' (d_ins d)) defs)
+  /\ NoDup (created_names (next_id s) (convert_defs (reserve s defs) (next_id s) defs)).
+Proof. exact accepted_call_names_distinct. Qed.
 
-(* the rejected call is not rolled back: both entries stay and are rendered
+(* a rejected call is not rolled back: the entries stay and are rendered
    (class C16-4, state after a failed batch) *)
 Theorem C16_names_unique_after_rejected_batch_refuted :
-  exists d1 d2, d_key d1 <> d_key d2 /\ call_err (AddRefs [d1; d2] [] None) = true
+  exists d1 d2, d_key d1 <> d_key d2 /\ call_err empty (AddRefs [d1; d2] [] None) = true
     /\ ~ NoDup (def_names (run_history empty [AddRefs [d1; d2] [] None])).
 Proof. exact names_unique_after_rejected_batch_refuted. Qed.
 
-Theorem C16_names_unique_inner_title_refuted :
-  exists d, ~ NoDup (def_names (run_history empty [AddRefs [d] [] None])).
-Proof. exact names_unique_inner_title_refuted. Qed.
+(* was finding C16-3 (a titled sub-schema takes the name of its enclosing
+   definition first): rejected since 40183ea, also not rolled back *)
+Theorem C16_names_unique_inner_title_rejected :
+  exists d, batch_dup [d] = None /\ call_err empty (AddRefs [d] [] None) = true
+    /\ ~ NoDup (def_names (run_history empty [AddRefs [d] [] None])).
+Proof. exact inner_title_rejected. Qed.
 
 (* clause 4, order of calls.  Two accepted calls c1, c2 (add_type_with_name or a
    batch, with cycles) issued from a consistent state s commute up to an
@@ -208,7 +220,7 @@ Theorem C16_split_independent_partial : forall h1 h2,
   /\ (forall n, In n (def_names (run_history empty h1)) -> registered (run_history empty h2) n).
 Proof. exact split_independent_partial. Qed.
 
-Example C16_accepted_batch_exists : batch_dup [wA; wB; wC] = None /\ call_err (AddRefs [wA; wB] [] None) = false.
+Example C16_accepted_batch_exists : batch_dup [wA; wB; wC] = None /\ call_err empty (AddRefs [wA; wB] [] None) = false.
 Proof. split; reflexivity. Qed.
 
 (* non-vacuity: a history with a cycle, a snip, shared structure, a repeated add
